@@ -502,3 +502,54 @@ Definition encode_section (ctx : option (list str)) (s : secdoc) : res (list (li
   do sp <- section_pages s;
   let '(pf, pattrs, cw, pages, rows) := sp in
   render_pages ctx s pf cw rows pattrs pages.
+
+(* ---- ambiguity flags: exact ties where binary64 noise decides the implementation's result ---- *)
+Fixpoint row_tie (widths : list (str * Q)) (removed : list nat) (cw : list Q)
+         (row : list val) (col_idx width_idx : nat) : bool :=
+  match row with
+  | [] => false
+  | v :: rest =>
+    if existsb (Nat.eqb col_idx) removed then row_tie widths removed cw rest (S col_idx) width_idx
+    else
+      match nth_error cw width_idx with
+      | None => false
+      | Some cur =>
+        let prev := match width_idx with O => 0 # 1 | S k => nth k cw (0 # 1) end in
+        match width_of widths (py_str v) with
+        | Ok tw => (negb (Qeqb tw (0 # 1)) && is_int_tie (tw / (cur - prev)))
+                   || row_tie widths removed cw rest (S col_idx) (S width_idx)
+        | Err _ => row_tie widths removed cw rest (S col_idx) (S width_idx)
+        end
+      end
+  end.
+
+Definition heading_tie (s : secdoc) (cw : list Q) (keys : option (list str)) (row : list val) : bool :=
+  match keys with
+  | Some ((_ :: _) as k) =>
+    match width_of (s_widths s) (heading_text (f_cols (s_frame s)) k row) with
+    | Ok tw => negb (Qeqb tw (0 # 1)) && is_int_tie (tw / qsum cw)
+    | Err _ => false
+    end
+  | _ => false
+  end.
+
+Definition section_tie (s : secdoc) : bool :=
+  let '(pf, pattrs, rem) := prepare (s_frame s) (s_body s) in
+  let W := p_col_width (s_page s) in
+  let cw := match a_crw pattrs with
+            | Some ((_ :: _) as l) => col_widths l W
+            | _ => col_widths (repeat (1 # 1) (length (f_cols pf))) W
+            end in
+  any_b (fun row => row_tie (s_widths s) rem cw row 0 0
+                    || heading_tie s cw (b_page_by (s_body s)) row
+                    || heading_tie s cw (b_subline_by (s_body s)) row) (f_rows (s_frame s))
+  || any_b (fun c => is_half_tie (c * (1440 # 1))) cw.
+
+(* the one data-dependent refusal: group_by keys that are not contiguous *)
+Definition section_gb_bad (s : secdoc) : bool :=
+  let '(pf, _, _) := prepare (s_frame s) (s_body s) in
+  match b_group_by (s_body s), f_rows pf with
+  | Some ((_ :: _) as keys), _ :: _ =>
+    all_b (fun k => mem_str k (f_cols pf)) keys && negb (sorting_ok (f_cols pf) (f_rows pf) keys)
+  | _, _ => false
+  end.
